@@ -86,6 +86,9 @@ def getitem(it, base, key):
             r, c = key
             if isinstance(r, slice) and isinstance(c, slice):
                 return NA([row[_norm_slice(c)] for row in base.data[_norm_slice(r)]], 2)
+            if isinstance(r, slice) and isinstance(c, (list, tuple, NA)):
+                cols = [_int(x) for x in (c.data if isinstance(c, NA) else c)]
+                return NA([[row[j] for j in cols] for row in base.data[_norm_slice(r)]], 2)
             if isinstance(r, slice):
                 ci = _int(c, "column")
                 return NA([row[ci] for row in base.data[_norm_slice(r)]], 1)
@@ -1114,7 +1117,7 @@ def _init_ext():
         "true_divide": ew2("div"), "multiply": ew2("mul"), "add": ew2("add"), "subtract": ew2("sub"), "greater": ew2("gt"), "less": ew2("lt"),
         "greater_equal": ew2("ge"), "less_equal": ew2("le"), "equal": ew2("eq"), "not_equal": ew2("ne"), "logical_and": ew2("and"),
         "logical_or": ew2("or"), "arctan2": ew2("atan2"), "mod": ew2("mod"),
-        "where": np_where, "clip": np_clip, "nan_to_num": np_nan_to_num, "cumsum": np_cumsum, "diff": np_diff, "roll": np_roll,
+        "tensordot": lambda it, a, k: np_dot(it, [a[0], a[1]], {}), "where": np_where, "clip": np_clip, "nan_to_num": np_nan_to_num, "cumsum": np_cumsum, "diff": np_diff, "roll": np_roll,
         "convolve": np_convolve, "dot": np_dot, "average": np_average, "pad": np_pad, "isscalar": np_isscalar, "errstate": np_errstate,
         "tril": np_tril, "flatnonzero": np_flatnonzero,
         "maximum.accumulate": accumulate("max"), "minimum.accumulate": accumulate("min"), "subtract.outer": np_outer_sub,
